@@ -31,7 +31,8 @@ def _cov_formula(a, ev, r):
   if mt is None:
     return z3.BoolVal(False)
   cov = TH.cov(Xt)
-  return z3.Or(mt == TH.pinv(cov), mt == TH.sdivl(z3.RealVal(1), TH.atleast2d(cov)), mt == TH.sdivl(z3.RealVal(1), cov))
+  ok = any(mt.eq(x) for x in (TH.pinv(cov), TH.sdivl(z3.RealVal(1), TH.atleast2d(cov)), TH.sdivl(z3.RealVal(1), cov), TH.pinv(TH.atleast2d(cov))))
+  return z3.BoolVal(True) if ok else PatternMismatch('matrix converted vs pinv(cov(X))')
 
 
 def _components_are_the_conversion(a, ev, r):
@@ -77,7 +78,7 @@ def _rca_whitens(a, r):
       R = TH.mm(TH.mm(TH.tr(At), Wv), At)
       alts += [TH.mm(isq(R), TH.tr(At)), TH.mm(isq(TH.atleast2d(R)), TH.tr(At))]
   # decided syntactically (hash-consed terms): the executor builds exactly these terms from the real body, no solver search needed
-  return z3.BoolVal(any(ct.eq(x) for x in alts))
+  return z3.BoolVal(True) if any(ct.eq(x) for x in alts) else PatternMismatch('components_ vs inverse square root of the within-chunk covariance')
 
 
 rc = REGISTRY['rca:RCA.fit']
